@@ -386,3 +386,9 @@ mut("blocks-cursor-jumps-two", "C12", "yrs/src/id_set.rs", "                    
 mut("blocks-cursor-benign-named", "C12", "yrs/src/id_set.rs", "                    self.current_index = Some(idx + 1);\n                    block", "                    let following = idx + 1;\n                    self.current_index = Some(following);\n                    block", "", kind="benign")
 mut("gc-scope-tests-block-start", "C13", "yrs/src/gc.rs", "                            start += len;\n                            if start > delete_item.end {\n                                break;\n                            } else {", "                            if start >= delete_item.end {\n                                break;\n                            } else {\n                                start += len;", "gc-scope", also=["C15"])
 mut("gc-scope-benign-named-end", "C13", "yrs/src/gc.rs", "                            start += len;\n                            if start > delete_item.end {", "                            start += len;\n                            let limit = delete_item.end;\n                            if start > limit {", "", kind="benign", also=["C15"])
+SL = "yrs/src/slice.rs"
+mut("ident-itemslice-len-off-by-one", "C04", SL, "        self.end - self.start + 1\n", "        self.end - self.start\n", "lookup")
+mut("ident-blockslice-clock-end-exclusive", "C04", SL, "            BlockSlice::GC(s) | BlockSlice::Skip(s) => s.clock + s.len - 1,", "            BlockSlice::GC(s) | BlockSlice::Skip(s) => s.clock + s.len,", "lookup")
+mut("ident-blockrange-slice-keeps-len", "C04", B, "        next.clock += offset;\n        next.len -= offset;\n        next", "        next.clock += offset;\n        next", "lookup")
+mut("ident-benign-blockslice-separate-arms", "C04", SL, "            BlockSlice::GC(s) | BlockSlice::Skip(s) => s.clock + s.len - 1,", "            BlockSlice::GC(s) => s.clock + s.len - 1,\n            BlockSlice::Skip(s) => s.clock + s.len - 1,", "", kind="benign")
+mut("ident-benign-itemslice-len-named", "C04", SL, "        self.end - self.start + 1\n", "        let span = self.end - self.start;\n        1 + span\n", "", kind="benign")
